@@ -93,6 +93,10 @@ struct QsEngine : Engine {
 		}
 		if (p.cfg == MT_TICKET && rng.chance(1, 3)) p.knobs["age"] = (int64_t)((rng.chance(1, 2) ? 0xFFFFFFFFu : 0x7FFFFFFFu) - (uint32_t)rng.below(6)); // aged domain mutex
 		if (rng.chance(1, 4)) p.knobs["periods"] = (int64_t)(0x100000000ull - 1 - rng.below(4)); // a domain that has seen ~2^32 grace periods
+		// offline() of an agent that holds a deferred period is rejected by an assertion in the unchanged tree (documented TODO): normally the
+		// harness skips that operation; in one plan of eight it is issued anyway — a tree that still rejects it ends the run without a verdict
+		// (panic_is_stop), a tree that accepts it is judged like any other history
+		{ Rng dr; dr.seed(p.seed ^ 0x44454645ull); if (dr.chance(1, 8)) p.knobs["allow_deferred_offline"] = 1; }
 		pick_strategy(rng, p, true);
 	}
 
